@@ -7,6 +7,9 @@
 //!           area (WS), a point coordinate (SCFS) or the graphics state (SMD, SSW, SCVTCI, SSWCI);
 //! * "glyf": composite glyphs whose component glyphs have unordered / huge contour end points, drawn under
 //!           c02's "strict" plan (both path styles, all hinting engines);
+//! * "fdselect": CFF2 fonts with two Font DICTs and an FDSelect in format 0, 3 or 4 over nRanges {0,1,2}, first
+//!           range at glyph {0,1,2}, sentinel correct / too small / missing, fd in / out of range, drawn under
+//!           the "strict" plan for every glyph (so glyphs below the first range and past the sentinel are queried);
 //! * "cffupem": a CFF font with unitsPerEm in {1, 2, 16, 128, 1000, 0xFFFF} under the "strict" plan (sizes up
 //!           to 1e9), for the hint-scale computation.
 use c02::skdrv::{Acc, Plan};
@@ -264,6 +267,90 @@ fn patch_table(font: &mut [u8], tag: &[u8; 4], off: usize, bytes: &[u8]) -> bool
     false
 }
 
+fn dict_int(v: i32) -> Vec<u8> {
+    let mut o = vec![29];
+    o.extend_from_slice(&v.to_be_bytes());
+    o
+}
+fn index2(items: &[Vec<u8>]) -> Vec<u8> {
+    let mut o = (items.len() as u32).to_be_bytes().to_vec();
+    if items.is_empty() {
+        return o;
+    }
+    o.push(4);
+    let mut off = 1u32;
+    o.extend_from_slice(&off.to_be_bytes());
+    for it in items {
+        off += it.len() as u32;
+        o.extend_from_slice(&off.to_be_bytes());
+    }
+    for it in items {
+        o.extend_from_slice(it);
+    }
+    o
+}
+
+pub const FDSELECT_GLYPHS: usize = 6;
+
+/// CFF2 table with two Font DICTs (each with its own Private DICT), `FDSELECT_GLYPHS` charstrings and the
+/// given FDSelect bytes
+fn cff2_with_fdselect(fdselect: &[u8]) -> Vec<u8> {
+    let top_len = 6 + 7 + 7;
+    let privates = [vec![189u8, 10], vec![199u8, 11]]; // StdHW 50 / StdVW 60
+    let gsubrs = index2(&[]);
+    let font_dict_len = 5 + 5 + 1;
+    let fdarray_len = 4 + 1 + 4 * 3 + 2 * font_dict_len;
+    let fdarray_off = 5 + top_len + gsubrs.len();
+    let p0_off = fdarray_off + fdarray_len;
+    let p1_off = p0_off + privates[0].len();
+    let charstrings_off = p1_off + privates[1].len();
+    let mut dicts = vec![];
+    for (p, off) in privates.iter().zip([p0_off, p1_off]) {
+        let mut d = dict_int(p.len() as i32);
+        d.extend(dict_int(off as i32));
+        d.push(18);
+        dicts.push(d);
+    }
+    let fdarray = index2(&dicts);
+    debug_assert_eq!(fdarray.len(), fdarray_len);
+    // 100 100 rmoveto 50 hlineto 50 vlineto
+    let cs: Vec<u8> = vec![239, 239, 21, 189, 6, 189, 7];
+    let charstrings = index2(&vec![cs; FDSELECT_GLYPHS]);
+    let fdselect_off = charstrings_off + charstrings.len();
+    let mut top = dict_int(charstrings_off as i32);
+    top.push(17);
+    top.extend(dict_int(fdarray_off as i32));
+    top.extend_from_slice(&[12, 36]);
+    top.extend(dict_int(fdselect_off as i32));
+    top.extend_from_slice(&[12, 37]);
+    debug_assert_eq!(top.len(), top_len);
+    let mut header = vec![2u8, 0, 5];
+    header.extend_from_slice(&(top_len as u16).to_be_bytes());
+    [header, top, gsubrs, fdarray, privates[0].clone(), privates[1].clone(), charstrings, fdselect.to_vec()].concat()
+}
+
+/// every FDSelect of the family: format 0 arrays and the range family in formats 3 and 4
+pub fn fdselect_variants() -> Vec<(String, Vec<u8>)> {
+    let mut v = vec![];
+    for n in [0usize, 1, 2, FDSELECT_GLYPHS] {
+        let mut f0 = vec![0u8];
+        f0.extend((0..n).map(|i| (i % 3) as u8));
+        v.push((format!("format 0, {n} entries"), f0));
+    }
+    for (label, r) in c01::capsweep::fdselect_family() {
+        v.push((format!("format 3, {label}"), c01::capsweep::fdselect3(&r)));
+        v.push((format!("format 4, {label}"), c01::capsweep::fdselect4(&r)));
+    }
+    v
+}
+
+fn fdselect_font(i: usize) -> Vec<u8> {
+    let vars = fdselect_variants();
+    let mut font = c02::cff2prog::Parts::new().build_with_table(cff2_with_fdselect(&vars[i % vars.len()].1));
+    patch_table(&mut font, b"maxp", 4, &(FDSELECT_GLYPHS as u16).to_be_bytes());
+    font
+}
+
 pub const UPEMS: [u16; 6] = [1, 2, 16, 128, 1000, 0xFFFF];
 
 fn merge(into: &mut CaseOut, mut o: CaseOut, sub: u64, label: &'static str) {
@@ -307,6 +394,7 @@ pub fn drive(spec: &Value) -> CaseOut {
     match spec["fam"].as_str() {
         Some("tt") => drive_tt(spec),
         Some("glyf") => drive_fonts(spec, END_POINTS.len(), "glyf", &glyf_variant),
+        Some("fdselect") => drive_fonts(spec, fdselect_variants().len(), "fdselect", &fdselect_font),
         Some("cffupem") => drive_fonts(spec, UPEMS.len(), "cffupem", &|i| {
             // `100 100 rmoveto 50 hlineto 50 vlineto endchar` with stem hints so that the hinter runs
             let mut cs = vec![];
@@ -325,7 +413,11 @@ pub fn drive(spec: &Value) -> CaseOut {
 }
 
 pub fn cases(quick: bool) -> Vec<Value> {
-    let mut v = vec![json!({"driver": "c20deep", "fam": "glyf"}), json!({"driver": "c20deep", "fam": "cffupem"})];
+    let mut v = vec![
+        json!({"driver": "c20deep", "fam": "glyf"}),
+        json!({"driver": "c20deep", "fam": "cffupem"}),
+        json!({"driver": "c20deep", "fam": "fdselect"}),
+    ];
     v.extend(tt_cases(quick));
     v
 }
@@ -347,6 +439,11 @@ pub fn describe(spec: &Value) -> String {
             )
         }
         Some("glyf") => format!("glyph 1 contour end points {:?}; glyphs 2,3,4 = composites [0,1] [1,0] [1,1]", END_POINTS[spec["only"].as_u64().unwrap_or(0) as usize % END_POINTS.len()]),
+        Some("fdselect") => {
+            let vars = fdselect_variants();
+            let (l, b) = &vars[spec["only"].as_u64().unwrap_or(0) as usize % vars.len()];
+            format!("CFF2 font, 2 Font DICTs, {} glyphs, FDSelect {l}: {}", FDSELECT_GLYPHS, vcore::hex(b))
+        }
         Some("cffupem") => format!("CFF font with head.unitsPerEm = {}", UPEMS[spec["only"].as_u64().unwrap_or(0) as usize % UPEMS.len()]),
         _ => String::new(),
     }
